@@ -346,7 +346,7 @@ def c08(c):
             else:
                 c.mc("MC_VSign", "MC_VSign_%s.cfg" % cfg.replace("thorough", "c08"), workers=10, timeout=3000, gen_tag="GEN", gen_sink=sink, coverage=False)
         graphs.append(path)
-    shards = 16 if c.tier == "thorough" else 8
+    shards = 48 if c.tier == "thorough" else 8    # thorough writes about 6.5 GiB of events: shards of ~140 MB fit a 3 GB TLC heap
     files, n, out = vlib.record("C08", c.tier, c.seed, shards, extra=graphs)
     for g in graphs:
         os.remove(g)
